@@ -56,7 +56,7 @@ fn run_op(op: &str) -> String {
       // starting depth of the radius, i.e. through the layers of depth d .. d+4), radii alternating between
       // four starting-depth classes, centres walking around the sphere: a hot loop that other threads run
       // at the same time with other depths
-      let rounds: u32 = if cfg!(miri) { 3 } else { 1500 };
+      let rounds: u32 = if cfg!(miri) { 4 } else { 1500 }; // (4 rounds = the four radius classes: the same layers are touched)
       let mut acc: u64 = 1469598103934665603;
       for it in 0..rounds {
         let k = (it % 4) as u8;
@@ -69,7 +69,7 @@ fn run_op(op: &str) -> String {
         }
         acc = (acc ^ b.entries.len() as u64).wrapping_mul(1099511628211);
       }
-      format!("small_cones={} digest={:x}", rounds, acc)
+      format!("small_cones digest={:x}", acc)
     }
     _ => panic!("unknown op {}", op),
   }
